@@ -2,7 +2,8 @@ pub struct Error;
 
 #[inline(always)]
 fn digit(c: u8) -> Result<u8, Error> {
-    c.is_ascii_digit().then_some(c - b'0').ok_or(Error)
+    // the difference is computed for digits only: for a byte below b'0' it overflows
+    if c.is_ascii_digit() { Ok(c - b'0') } else { Err(Error) }
 }
 
 #[inline(always)]
